@@ -46,7 +46,10 @@ ASSUMPTIONS = [
     "fresh names collapsed); shared sub-DAGs are walked as trees by the model",
     "the models describe the repaired code (F18, F19, F19b, F50, F52); F51 (capture in propagate_toplevel) is a "
     "known finding",
-    "quantified variable lists are duplicate-free",
+    "prenex_equiv assumes a supply of pairwise different fresh names none of which occurs in the input: K finds "
+    "the fresh names of the real FormulaManager as the names of the result that do not occur in the input and "
+    "matches them one-to-one with the model's",
+    "generated binder lists are duplicate-free (the theorems do not need it)",
 ]
 
 COST_LIMIT = 30000       # node evaluations of the exact evaluator per chk_equiv request
